@@ -17,7 +17,7 @@ def main (args : List String) : IO UInt32 := do
   | ["aggstore"] => KM.Drv.AggStore.main; return 0
   | ["aggstore", prop] => KM.Drv.AggStore.main prop; return 0
   | ["pure"] => KM.Drv.Pure.main; return 0
-  | ["sysobjects"] => KM.Drv.SysObjects.main; return 0
-  | ["sysobjects", "tolerant"] => KM.Drv.SysObjects.main true; return 0
+  | "sysobjects" :: rest => KM.Drv.SysObjects.main rest; return 0
   | ["syskeys"] => KM.Drv.SysKeys.main; return 0
+  | ["syskeys", prop] => KM.Drv.SysKeys.main prop; return 0
   | _ => IO.eprintln "usage: kmodel <stream>"; return 2
